@@ -1,6 +1,8 @@
 import Hub.Model.Dump
 import Hub.Model.Monitors
 import Hub.Model.Run
+import Hub.SDK.Bech32
+import Hub.SDK.Paginate
 /-
 Line-protocol driver of the model (core-only, runs as `lake env lean --run Main.lean` or as the
 compiled `hubmodel`).  Reads one operation per line on stdin, answers in the format of the
@@ -201,7 +203,45 @@ partial def loop (h : IO.FS.Stream) (out : IO.FS.Stream) (d : Drv) : IO Unit := 
   for o in outs do out.putStrLn o
   loop h out d'
 
-def main : IO Unit := do
+/-! ### pure-function probes (`--probe`): one case per line, one answer per line -/
+
+def mres {α} (show_ : α → String) : M α → String
+  | .ok a => "ok " ++ show_ a
+  | .error _ => "panic"
+
+def mval {α} (show_ : α → String) : M α → String
+  | .ok a => show_ a
+  | .error _ => "panic"
+
+def probeLine (line : String) : String :=
+  let parts := (line.splitOn " ").filter (· ≠ "")
+  match parts with
+  | [] => ""
+  | kind :: rest =>
+    let f := parseFields rest
+    match kind with
+    | "afb" => mres toString (Hub.Generated.AmountForBytes (fint f "p") (fint f "b"))
+    | "prop" => mres (fun (c : Coin) => toString c.amount) (Hub.Generated.GetProportionOfCoin ⟨"udvpn", fint f "a"⟩ (fint f "s"))
+    | "ceilto" => mres (fun (b : Hub.Generated.Bandwidth) => toString b.Upload ++ " " ++ toString b.Download)
+        (Hub.Generated.Bandwidth.CeilTo ⟨fint f "up", fint f "down"⟩ (fint f "pre"))
+    | "decmul" => mres toString (Dec.mul (fint f "a") (fint f "b"))
+    | "decround" =>
+      let a := fint f "a"
+      "ok " ++ mval toString (Dec.ceil a) ++ " " ++ mval toString (Dec.roundInt a) ++ " " ++ mval toString (Dec.truncateInt a)
+    | "fmt" => "ok " ++ toHex (formatTimeBytes (fint f "t"))
+    | "b32enc" => Hub.SDK.Bech32.runBech32Probe line
+    | "b32dec" => Hub.SDK.Bech32.runBech32Probe line
+    | "page" => Hub.SDK.Paginate.runPaginateProbe line
+    | _ => "bad-case"
+
+partial def probeLoop (h : IO.FS.Stream) (out : IO.FS.Stream) : IO Unit := do
+  let line ← h.getLine
+  if line.isEmpty then return ()
+  out.putStrLn (probeLine line.trimAscii.toString)
+  probeLoop h out
+
+def main (args : List String) : IO Unit := do
   let stdin ← IO.getStdin
   let stdout ← IO.getStdout
-  loop stdin stdout {}
+  if args.contains "--probe" then probeLoop stdin stdout
+  else loop stdin stdout {}
